@@ -203,6 +203,28 @@ impl IndexManager {
         && forall|c: int| 0 <= c < s.uniques().len() ==> (lists_uq(aff, c, aff.len() as int) <==> touches(#[trigger] s.uniques()[c], ch))
     }
 }
+/// TAKING THE LAST ROW OUT keeps the mirror when its key is unbound (no position shifts) - on a duplicate-free table
+proof fn lemma_delete_last_keeps_mirror(m: Map<Key, usize>, rows: Seq<Row>, idx: Seq<usize>, skip_null: bool)
+    requires rows.len() >= 1, rows.len() <= usize::MAX, mirrors(m, rows, idx, skip_null, rows.len() as int), dupfree(rows, idx, skip_null),
+    ensures
+        ({ let k = keyof(rows, idx, rows.len() - 1);
+           mirrors(if skip_null && key_has_null(k) { m } else { m.remove(k) }, rows.drop_last(), idx, skip_null, rows.len() - 1) }),
+{
+    let n = rows.len() as int; let k0 = keyof(rows, idx, n - 1); let r2 = rows.drop_last();
+    let m2 = if skip_null && key_has_null(k0) { m } else { m.remove(k0) };
+    assert forall|j: int| 0 <= j < n - 1 implies keyof(rows, idx, j) == keyof(r2, idx, j) by {}
+    assert forall|k: Key| #![trigger m2.dom().contains(k)] #![trigger last_pos(r2, idx, skip_null, k, n - 1)]
+        (m2.dom().contains(k) == (last_pos(r2, idx, skip_null, k, n - 1) is Some)) && (m2.dom().contains(k) ==> m2[k] == last_pos(r2, idx, skip_null, k, n - 1).unwrap()) by {
+        lemma_last_pos_agree(rows, r2, idx, skip_null, k, n - 1);
+        assert(m.dom().contains(k) == (last_pos(rows, idx, skip_null, k, n) is Some));
+        lemma_last_pos(rows, idx, skip_null, k, n);
+        lemma_last_pos(rows, idx, skip_null, k, n - 1);
+        if k == k0 && counted(k0, skip_null) {
+            // no other row holds k0 (duplicate-free): nothing is left under it
+            lemma_last_pos_none(rows, idx, skip_null, k, n - 1);
+        }
+    }
+}
 proof fn lemma_remove_dupfree(rows: Seq<Row>, idx: Seq<usize>, skip_null: bool, p: int)
     requires 0 <= p < rows.len(), dupfree(rows, idx, skip_null),
     ensures dupfree(rows.remove(p), idx, skip_null),
@@ -537,6 +559,25 @@ proof {
 }
 """ % (_ANTE_UPD, _CONS_UPD.replace('final(self)', 'self'))
 
+_C_DEL = _P['C']['update_for_delete'] + """
+            // TAKING THE LAST ROW OUT KEEPS THE MIRROR (C15): no position shifts, unbinding its keys is all there is to do - on a duplicate-free table
+            forall|rows: Seq<Row>| #![trigger old(self).synced_n(schema, rows, rows.len() as int)]
+                old(self).synced_n(schema, rows, rows.len() as int) && rows.len() >= 1 && rows.len() <= usize::MAX && rows[rows.len() - 1].values@ == row.values@ && IndexManager::all_dupfree(schema, rows)
+                ==> final(self).synced_n(schema, rows.drop_last(), rows.len() - 1),
+"""
+_PF_DEL = """
+proof {
+    assert forall|rows: Seq<Row>| #![trigger old(self).synced_n(schema, rows, rows.len() as int)]
+        old(self).synced_n(schema, rows, rows.len() as int) && rows.len() >= 1 && rows.len() <= usize::MAX && rows[rows.len() - 1].values@ == row.values@ && IndexManager::all_dupfree(schema, rows)
+        implies self.synced_n(schema, rows.drop_last(), rows.len() - 1) by {
+        if old(self).primary_key_index is Some { lemma_delete_last_keeps_mirror(old(self).primary_key_index.unwrap().view(), rows, schema.pk().unwrap(), false); }
+        assert forall|c: int| 0 <= c < self.unique_indexes@.len() && c < schema.uniques().len() implies mirrors((#[trigger] self.unique_indexes@[c]).view(), rows.drop_last(), schema.uniques()[c], true, rows.len() - 1) by {
+            lemma_delete_last_keeps_mirror(old(self).unique_indexes@[c].view(), rows, schema.uniques()[c], true);
+        }
+    }
+}
+"""
+
 ITEMS = {
     'IndexType': dict(file=_F, path='enum IndexType'),
     'new': dict(file=_F, path='impl IndexManager::fn new', ret='res', rewrites=_RW + [
@@ -549,7 +590,7 @@ ITEMS = {
 '''),
     'update_for_insert': dict(file=_F, path='impl IndexManager::fn update_for_insert', rewrites=_RW, loops={0: _P['L']['update_for_insert']}, proofs=[_SNAP, ('@afterloop0', _PF_INS)], contract=_C_INS),
     'update_for_update': dict(file=_F, path='impl IndexManager::fn update_for_update', rewrites=_RW, loops={0: _P['L']['update_for_update']}, proofs=[_SNAP, ('@afterloop0', _PF_UPD)], contract=_C_UPD),
-    'update_for_delete': dict(file=_F, path='impl IndexManager::fn update_for_delete', rewrites=_RW, loops={0: _P['L']['update_for_delete']}, proofs=[_SNAP], contract=_P['C']['update_for_delete']),
+    'update_for_delete': dict(file=_F, path='impl IndexManager::fn update_for_delete', rewrites=_RW, loops={0: _P['L']['update_for_delete']}, proofs=[_SNAP, ('@afterloop0', _PF_DEL)], contract=_C_DEL),
     'get_affected_indexes': dict(file=_F, path='impl IndexManager::fn get_affected_indexes', ret='res', rewrites=_RW + [
             ('re', r'&HashSet<usize>', '&ColSet', 1),
             ('re', r'(\w+)\.iter\(\)\.any\(\|(\w+)\| changed_columns\.contains\(\2\)\)', r'any_in(\1.as_slice(), changed_columns)', 2),
@@ -588,7 +629,7 @@ ITEMS = {
 OBLIGATIONS = {
     'update_for_insert': ['post:key_bound_to_the_row_position_in_every_map__null_unique_keys_not_stored__append_keeps_the_mirror', 'safety:index_in_bounds', 'proof:loop_invariant'],
     'update_for_update': ['post:old_key_unbound_if_changed__new_key_bound__null_unique_keys_not_stored__write_in_place_keeps_the_mirror', 'proof:loop_invariant'],
-    'update_for_delete': ['post:key_unbound_in_every_map', 'proof:loop_invariant'],
+    'update_for_delete': ['post:key_unbound_in_every_map__taking_the_last_row_out_keeps_the_mirror', 'proof:loop_invariant'],
     'update_selective': ['post:exactly_the_listed_indexes_get_the_update_effect__mirror_kept_when_unlisted_keys_are_unchanged', 'proof:loop_invariant'],
     'rebuild': ['post:every_map_is_key_to_position_of_the_last_row_with_that_key', 'proof:loop_invariant'],
     'clear': ['post:every_map_empty', 'proof:loop_invariant'],
@@ -601,7 +642,7 @@ OBLIGATIONS = {
     'lemma_same_key_keeps_mirror': ['post:a_write_that_leaves_the_key_keeps_the_mirror'],
     'lemma_update_keeps_mirror': ['post:update_effect_on_a_duplicate_free_mirrored_table_with_a_fresh_new_key_keeps_the_mirror'],
     'lemma_update_dupfree': ['post:write_of_a_fresh_key_keeps_duplicate_freedom'],
-    'lemma_remove_dupfree': ['post:removal_keeps_duplicate_freedom'], 'lemma_all_remove_dupfree': ['post:removal_keeps_duplicate_freedom_for_every_constraint'],
+    'lemma_remove_dupfree': ['post:removal_keeps_duplicate_freedom'], 'lemma_delete_last_keeps_mirror': ['post:unbinding_the_key_of_the_last_row_keeps_the_mirror_of_the_shorter_table'], 'lemma_all_remove_dupfree': ['post:removal_keeps_duplicate_freedom_for_every_constraint'],
     'lemma_all_empty_dupfree': ['post:empty_table_is_duplicate_free'],
     'lemma_sel_pk': ['post:listed_index_gets_the_effect_once_however_often_listed'], 'lemma_sel_uq': ['post:listed_index_gets_the_effect_once_however_often_listed'],
     'lemma_push_lists': ['post:one_more_entry'], 'lemma_untouched_same_key': ['post:untouched_columns_same_key'],
